@@ -94,6 +94,21 @@ theorem owOf_cases (cond : Compile.Cond) : ∃ op w, owOf cond = (op, w) ∧ op.
   · simp [h]
   · simp [h]
 
+theorem baseNames_action (tmo : Nat) : baseNames .action tmo = ["Other".toList] := by
+  unfold baseNames
+  rw [if_neg (fun h => by cases h.1)]
+
+theorem ImplSim.allNames {M : Maps} {ns : Array NodeM} {n : NodeM} {c : CRow} {es : List OutEdge} {i' : Nat} {n' : NodeM}
+    {r : SwitchR} (hp : ImplSim M ns n c es i' n' r) :
+    r.allCats.map (·.name) = namesFrom .action (timeoutOf c.row) [] (testsOf .action es) ++ baseNames .action (timeoutOf c.row) := by
+  unfold SwitchR.allCats
+  rw [hp.noResp, baseNames_action]
+  simp [hp.names.1, hp.names.2]
+
+theorem args_action (cond : Compile.Cond) : ([some cond.value] : List (Option Str)) = argsOf .action (toRCond cond) := by
+  unfold argsOf
+  rw [if_neg (by decide)]; rfl
+
 section
 variable (rows : List CRow) (M : Maps) (pd : Bool) (kg : Nat) (d : Dest) (tgt : Target) (cond : Compile.Cond) (s : St) (st : P1) (j : Nat)
   (n : NodeM) (c : CRow)
@@ -149,7 +164,8 @@ theorem impl_blank_sim (i' : Nat) (n' : NodeM) (r : SwitchR) (hro : M.rOf j = so
     rw [hro]
     refine .impl i' { n' with router := some (.sw (r.setDflt d)) } (r.setDflt d) hk
       ⟨hp.kind, hp.router, hp.acts, hp.link, set_getElem?_self _ hp.rnode, hp.kind', hp.acts', rfl, ?_, hp.rname, ?_,
-        hp.noResp, ?_, hp.casecat, ?_, ?_, ?_⟩
+        hp.noResp, ?_, hp.casecat, ?_, ?_, ?_,
+        ⟨by rw [tests_action_blank _ _ heb]; exact hp.names.1, hp.names.2⟩⟩
     · rw [show (r.setDflt d).operand = r.operand from rfl, hp.operand]
       unfold implOperand; rw [implVar_append _ _ hp.some]
     · rw [show (r.setDflt d).wait = r.wait from rfl, hp.wait]
@@ -168,7 +184,9 @@ theorem impl_blank_sim (i' : Nat) (n' : NodeM) (r : SwitchR) (hro : M.rOf j = so
 /-- a further conditional edge leaving an action row: a new case and a new category of the router
 node behind it -/
 theorem impl_test_sim (i' : Nat) (n' : NodeM) (r : SwitchR) (hro : M.rOf j = some i')
-    (hp : ImplSim M s.nodes n c (outOf st j) i' n' r) (he : cond.blank = false) (hname : cond.name = [])
+    (hp : ImplSim M s.nodes n c (outOf st j) i' n' r) (he : cond.blank = false)
+    (hfreeN : cond.name ≠ [] → cond.name ∉ namesFrom .action (timeoutOf c.row) [] (testsOf .action (outOf st j)) ++
+      baseNames .action (timeoutOf c.row))
     (hvar : cond.var = implVar (outOf st j ++ [newEdge tgt cond j]))
     (hdist : ((testsOf .action (outOf st j ++ [newEdge tgt cond j])).map (fun e => refTest .action e.cond)).Nodup) :
     wp (rowExitCond (gOf rows j) [M.nOf j, i'] c.row.type i' n' d cond) s (EdgePost' rows M pd kg tgt cond s st j) := by
@@ -181,7 +199,7 @@ theorem impl_test_sim (i' : Nat) (n' : NodeM) (r : SwitchR) (hro : M.rOf j = som
   simp only [hnb, if_false, action_not_group hk, action_not_value hk, false_or]
   wp_simp
   unfold nodeAddChoice
-  simp only [hp.router', hname]
+  simp only [hp.router']
   wp_simp [wp_setNode]
   have how : (if ¬ cond.var.isEmpty = true then (cond.var, (none : Option Nat)) else ("@input.text".toList, some 0)) =
       (implOperand (outOf st j), implWait (outOf st j)) := ow_impl cond _ (by rw [← hiv]; exact hvar.symm)
@@ -192,7 +210,7 @@ theorem impl_test_sim (i' : Nat) (n' : NodeM) (r : SwitchR) (hro : M.rOf j = som
   have hstored : (ty, (if s.noArgs.contains ty then [] else [some cond.value]).map (·.getD [])) =
       refTest .action (newEdge tgt cond j).cond := by
     rw [h.args]; exact hstored0
-  refine addChoice_new r _ ty [some cond.value] d s ?_ _ ?_
+  refine addChoice_any r _ ty [some cond.value] cond.name d s ?_ ?_ _ ?_
   · intro k hkm ⟨e1, e2⟩
     have hmem : (k.type, k.args.map (·.getD [])) ∈ r.cases.map (fun k => (k.type, k.args.map (·.getD []))) :=
       List.mem_map_of_mem hkm
@@ -201,6 +219,9 @@ theorem impl_test_sim (i' : Nat) (n' : NodeM) (r : SwitchR) (hro : M.rOf j = som
       rw [← hstored, e1, e2]
     rw [this] at hmem
     exact hdist.2.2 _ hmem _ (by simp) rfl
+  · intro hne
+    refine catByName_none_of_not_mem r _ ?_
+    rw [hp.allNames]; exact hfreeN hne
   · intro _
     wp_simp [wp_setNode]
     have hopne : (implOperand (outOf st j)).isEmpty = false := by
@@ -209,12 +230,25 @@ theorem impl_test_sim (i' : Nat) (n' : NodeM) (r : SwitchR) (hro : M.rOf j = som
     have hopd : (if (implOperand (outOf st j)).isEmpty = true then r.operand else implOperand (outOf st j)) = r.operand := by
       rw [hopne, if_neg (by decide : ¬ (false = true)), hp.operand]
     rw [hopd]
+    obtain ⟨nm, hnm⟩ : ∃ nm : Str, nm = if cond.name.isEmpty = true
+        then genCatName (if (implOperand (outOf st j)).isEmpty = true then r else { r with operand := implOperand (outOf st j) }) [some cond.value]
+        else cond.name := ⟨_, rfl⟩
+    rw [← hnm]
+    have hnm2 : nm = catNameOf .action (timeoutOf c.row)
+        (namesFrom .action (timeoutOf c.row) [] (testsOf .action (outOf st j))) (newEdge tgt cond j).cond := by
+      rw [hnm]
+      unfold catNameOf
+      have e0 : (newEdge tgt cond j).cond.name = cond.name := rfl
+      rw [e0, genCatName_eq, ← args_action]
+      have e1 : (if (implOperand (outOf st j)).isEmpty = true then r else { r with operand := implOperand (outOf st j) }).allCats = r.allCats := by
+        split <;> rfl
+      rw [e1, hp.allNames]
     obtain ⟨r', hr'⟩ : ∃ r' : SwitchR, r' = { r with
-        cats := r.cats ++ [Cat.mk (tid s.next) (genCatName (if (implOperand (outOf st j)).isEmpty = true then r else { r with operand := implOperand (outOf st j) }) [some cond.value]) (tid (s.next + 1)) d],
+        cats := r.cats ++ [Cat.mk (tid s.next) nm (tid (s.next + 1)) d],
         cases := r.cases ++ [Case.mk (tid (s.next + 2)) ty (if s.noArgs.contains ty = true then [] else [some cond.value]) (tid s.next)] } := ⟨_, rfl⟩
     have hr'' : ({ r with
         operand := r.operand,
-        cats := r.cats ++ [{ uid := tid s.next, name := genCatName (if (implOperand (outOf st j)).isEmpty = true then r else { r with operand := implOperand (outOf st j) }) [some cond.value],
+        cats := r.cats ++ [{ uid := tid s.next, name := nm,
                              exitUid := tid (s.next + 1), dest := d }],
         cases := r.cases ++ [{ uid := tid (s.next + 2), type := ty,
                                args := if s.noArgs.contains ty = true then [] else [some cond.value], catUid := tid s.next }] } : SwitchR) = r' := by
@@ -227,11 +261,10 @@ theorem impl_test_sim (i' : Nat) (n' : NodeM) (r : SwitchR) (hro : M.rOf j = som
       (fun i hi => set_getElem?_other _ _ _ _ hi) rfl rfl rfl rfl (Nat.le_add_right _ _) ?_ ?_
     · refine ⟨n, by rw [set_getElem?_other _ _ _ _ hne.symm]; exact hn, ?_⟩
       rw [hro]
-      have fcats : ∃ nm, r'.cats = r.cats ++ [{ uid := tid s.next, name := nm, exitUid := tid (s.next + 1), dest := d }] :=
-        ⟨_, by rw [hr']⟩
+      have fcats : r'.cats = r.cats ++ [{ uid := tid s.next, name := nm, exitUid := tid (s.next + 1), dest := d }] := by
+        rw [hr']
       have fcases : r'.cases = r.cases ++ [{ uid := tid (s.next + 2), type := ty, args := if s.noArgs.contains ty = true then [] else [some cond.value], catUid := tid s.next }] := by
         rw [hr']
-      obtain ⟨nm, fcats⟩ := fcats
       have fop : r'.operand = r.operand := by rw [hr']
       have frn : r'.resultName = r.resultName := by rw [hr']
       have fw : r'.wait = r.wait := by rw [hr']
@@ -239,7 +272,13 @@ theorem impl_test_sim (i' : Nat) (n' : NodeM) (r : SwitchR) (hro : M.rOf j = som
       have fd : r'.dflt = r.dflt := by rw [hr']
       refine .impl i' { n' with router := some (.sw r') } r' hk
         ⟨hp.kind, hp.router, hp.acts, hp.link, set_getElem?_self _ hp.rnode, hp.kind', hp.acts', rfl, ?_, by rw [frn]; exact hp.rname,
-          ?_, by rw [fnr]; exact hp.noResp, ?_, ?_, ?_, ?_, ?_⟩
+          ?_, by rw [fnr]; exact hp.noResp, ?_, ?_, ?_, ?_, ?_, ?_⟩
+      rotate_right
+      · constructor
+        · rw [fcats, htests, namesFrom_append, List.map_append, hp.names.1]
+          simp only [List.map_cons, List.map_nil, namesFrom]
+          rw [hnm2]
+        · rw [fd]; exact hp.names.2
       · rw [fop, hp.operand]; unfold implOperand; rw [hiv]
       · rw [fw, hp.wait]; unfold implWait; rw [hiv]
       · rw [htests, fcases]
@@ -271,7 +310,8 @@ theorem impl_first_post (hro : M.rOf j = none) (hp : PlainSim M s.nodes n c.row.
     (hop : rr.operand = (owOf cond).1) (hwt : rr.wait = (owOf cond).2) (hrn : rr.resultName = none) (hnr : rr.noResp = none)
     (hcases : rr.cases = [k0]) (hcats : rr.cats = [c0]) (hkc : k0.catUid = c0.uid)
     (hk0 : (k0.type, k0.args.map (·.getD [])) = refTest .action (toRCond cond)) (hc0 : c0.dest = d)
-    (hdf : rr.dflt.dest = n.dexitDest) :
+    (hdf : rr.dflt.dest = n.dexitDest)
+    (hc0n : c0.name = catNameOf .action (timeoutOf c.row) [] (toRCond cond)) (hdn : rr.dflt.name = "Other".toList) :
     EdgePost' rows M pd kg tgt cond s st j ⟨⟩ s' := by
   have heb : (newEdge tgt cond j).cond.blank = false := by simpa [toRCond_blank] using he
   have hg := h.grp j c hj hc hnode
@@ -351,7 +391,8 @@ theorem impl_first_post (hro : M.rOf j = none) (hp : PlainSim M s.nodes n c.row.
       have e1 := outOf_cons_same st (newEdge tgt cond j0)
       rw [e1, hMrj]
       refine .impl s.nodes.size rn2 rr hk ⟨by rw [h2k]; exact hp.kind, by rw [h2r]; exact hp.router,
-        by rw [h2a]; exact hp.acts, h2d, hrn2, hrk, hra, hrr, ?_, hrn, ?_, hnr, ?_, ?_, ?_, ?_, ?_⟩
+        by rw [h2a]; exact hp.acts, h2d, hrn2, hrk, hra, hrr, ?_, hrn, ?_, hnr, ?_, ?_, ?_, ?_, ?_,
+        ⟨by rw [hcats, htests]; simp only [List.map_cons, List.map_nil, namesFrom]; rw [hc0n]; rfl, hdn⟩⟩
       · rw [hop, how]
       · rw [hwt, how]
       · rw [hcases, htests]
@@ -424,7 +465,9 @@ theorem impl_first_post (hro : M.rOf j = none) (hp : PlainSim M s.nodes n c.row.
 /-- the first conditional edge leaving an action row: a router node is created behind the row's node,
 inherits its unconditional exit, and gets the first case -/
 theorem impl_first_sim (hro : M.rOf j = none) (hp : PlainSim M s.nodes n c.row.action (outOf st j))
-    (he : cond.blank = false) (hname : cond.name = []) :
+    (he : cond.blank = false)
+    (hfreeN : cond.name ≠ [] → cond.name ∉ namesFrom .action (timeoutOf c.row) [] (testsOf .action (outOf st j)) ++
+      baseNames .action (timeoutOf c.row)) :
     wp (rowExitCond (gOf rows j) [M.nOf j] c.row.type (M.nOf j) n d cond) s (EdgePost' rows M pd kg tgt cond s st j) := by
   have hnl : M.nOf j < s.nodes.size := (Array.getElem?_eq_some_iff.mp hn).1
   have post := impl_first_post rows M pd kg d tgt cond s st j n c h hj hn hc hnode hk hd htg hro hp he
@@ -451,18 +494,30 @@ theorem impl_first_sim (hro : M.rOf j = none) (hp : PlainSim M s.nodes n c.row.a
   unfold attachRowNode
   wp_simp [wp_addNode, wp_setGrp, wp_setNode]
   unfold nodeAddChoice
-  simp only [SwitchR.setDflt, hname]
+  simp only [SwitchR.setDflt]
   wp_simp
   have hstored0 := stored_test_action cond
   generalize hty : (if cond.type.isEmpty = true then "has_any_word".toList else cond.type) = ty at hstored0 ⊢
-  refine addChoice_new _ op ty [some cond.value] d _ (by intro k hk; cases hk) _ ?_
+  have hfreeN' : cond.name ≠ [] → cond.name ∉ ["Other".toList] := by
+    intro hne
+    have := hfreeN hne
+    rw [tests_action_nil _ hp.blank, baseNames_action] at this
+    exact this
+  refine addChoice_any _ op ty [some cond.value] cond.name d _ (by intro k hk; cases hk) ?_ _ ?_
+  · intro hne
+    exact catByName_none_of_not_mem _ _ (hfreeN' hne)
   intro _
   wp_simp [wp_setNode]
   simp only [hopne, Bool.false_eq_true, if_false]
   refine post _ _ _ _ _ _ _ rfl rfl rfl rfl rfl (by simp only []; omega) rfl rfl rfl rfl rfl rfl rfl rfl rfl rfl rfl rfl
-    rfl rfl rfl ?_ rfl rfl
-  simp only [List.nil_append]
-  rw [h.args]; exact hstored0
+    rfl rfl rfl ?_ rfl rfl ?_ rfl
+  · simp only [List.nil_append]
+    rw [h.args]; exact hstored0
+  · show (if cond.name.isEmpty = true then genCatName _ [some cond.value] else cond.name) = _
+    unfold catNameOf
+    have e0 : (toRCond cond).name = cond.name := rfl
+    rw [e0, genCatName_eq, ← args_action, baseNames_action]
+    rfl
 
 end
 end Rpft.CoreSheet
